@@ -360,8 +360,58 @@ def rule_type(prog, rep):
             rep.finding("C10.TYPE", cv.name, "from_cst:" + v, "cst::Type::%s converts to %s, expected %s" % (v, got, w), cv.loc())
 
 
+def rule_numfmt(prog, rep):
+    """C10.NUMFMT: the text of a value created from a Rust number comes from the number's
+    `Display` (`ToString::to_string`), which never uses exponent notation, and for floats the only
+    edit is appending `.0` when there is no `.`.  Any other formatter (Debug `{:?}`, LowerExp
+    `{:e}`) produces `1e16`, and `1e16` + `.0` is not a FloatValue."""
+    rep.floor("C10.NUMFMT", 2)
+    STR_MUT = r"string::String::(push_str|push|insert|insert_str|truncate|pop|remove|retain|clear|drain|replace_range|extend|split_off)$|String as std::ops::(AddAssign|DerefMut)"
+    for ty, num, allow_fix in (("FloatValue", "f64", True), ("IntValue", "i32", False)):
+        fn = prog.fn(r"^apollo_compiler::ast::impls::<impl std::convert::From<%s> for apollo_compiler::ast::%s>::from$" % (num, ty))
+        # the returned aggregate
+        aggs = []
+        for b in sorted(fn.live_blocks()):
+            for s in fn.stmts(b):
+                if s[0] == "=" and s[2][0] == "agg" and isinstance(s[2][1], list) and s[2][1][0] == "adt" and s[2][1][1].endswith("ast::" + ty):
+                    aggs.append((b, s))
+        src = [c for c in fn.live_calls() if c.callee.get("full") == "<%s as std::string::ToString>::to_string" % num and fn.sym(c.args[0]).lstrip("&") == "arg1"]
+        text = "<T as ToString>::to_string(&arg1)"
+        ok = len(aggs) == 1 and len(src) == 1 and [fn.sym(o) for o in aggs[0][1][2][2]] == [text]
+        if not ok and len(aggs) == 1 and len(aggs[0][1][2][2]) == 1:
+            # the same thing spelt `format!("{value}")` / `format!("{}", value)`: Display, no options
+            t2 = fn.sym(aggs[0][1][2][2][0])
+            if re.fullmatch(r'hint::must_use\(fmt::format\(Arguments::new\(&const:\*b"\\xc0\\x00", &array\(Argument::new_display\(&\*tuple\(&arg1\)\.0\)\)\)\)\)', t2):
+                ok, text = True, t2
+        why = ""
+        if not ok:
+            why = "the stored text is `%s`, not <%s as Display>::to_string(value)" % ([fn.sym(o) for a in aggs for o in a[1][2][2]], num)
+        else:
+            muts = [c for c in fn.live_calls() if re.search(STR_MUT, c.name) and c.args and fn.sym(c.args[0]).lstrip("&") == text]
+            if not allow_fix:
+                if muts:
+                    ok, why = False, "the text is edited by %s" % [m.name.split("::")[-1] for m in muts]
+            else:
+                if len(muts) != 1 or not muts[0].name.endswith("push_str") or fn.sym(muts[0].args[1]) != '&*const:".0"':
+                    ok, why = False, "the text is edited by %s (expected exactly one push_str(\".0\"))" % [(m.name.split("::")[-1], fn.sym(m.args[1]) if len(m.args) > 1 else "") for m in muts]
+                else:
+                    facts = facts_at(fn, muts[0].block)
+                    g = [f for f in facts if f[0] == "callbool" and f[1].endswith("str>::contains") and f[3] is False and f[4].args and fn.sym(f[4].args[1]) == "46"]
+                    if not g:
+                        ok, why = False, "`.0` is appended without the test `!text.contains('.')`"
+                    # every path that skips the push has contains == true: the push is the only branch
+                    elif not must_pass(fn, [g[0][4].block], [aggs[0][0]], [muts[0].block, *[b for b in fn.live_blocks() if any(ff[0] == "callbool" and ff[1].endswith("str>::contains") and ff[3] is True for ff in facts_at(fn, b))]])[0]:
+                        ok, why = False, "a path reaches the result without `.0` although the text has no `.`"
+        rep.obligation(ok)
+        if ok:
+            rep.instance("C10.NUMFMT", "From<%s> for %s: text = <%s as Display>::to_string(value)%s" % (num, ty, num, "; `.0` appended iff the text has no `.`" if allow_fix else ""))
+        else:
+            rep.finding("C10.NUMFMT", fn.name, "format", "From<%s> for %s: %s; Display is the only std formatter that never uses exponent notation" % (num, ty, why), fn.loc())
+
+
 def run(prog, rep):
     rule_name(prog, rep)
     rule_gate(prog, rep)
     rule_num(prog, rep)
     rule_type(prog, rep)
+    rule_numfmt(prog, rep)
